@@ -447,15 +447,16 @@ pub mod inner {
             assert!(r <= w, "range right ({r}) > width ({w})");
             assert!(b <= h, "range bottom ({b}) > height ({h})");
 
+            // An empty rect borrows no data at all. Computing indices for it
+            // would go past the end of the data if it starts at the far edge
+            // (l == w or t == h), which the asserts above permit.
+            if l == r || t == b {
+                return ((r - l, b - t), 0..0);
+            }
             // (l, t) is now guaranteed to be in bounds
             let start = self.to_index(l, t);
-            // Slice end is the end of the last row
-            let end = if b == t {
-                self.to_index(r, t)
-            } else {
-                // b != 0 because b >= t && b != t
-                self.to_index(r, b - 1)
-            };
+            // Slice end is the end of the last row; b != 0 because b > t
+            let end = self.to_index(r, b - 1);
             ((r - l, b - t), start..end)
         }
 
@@ -480,15 +481,15 @@ pub mod inner {
             assert!(w <= stride, "width ({w}) > stride ({stride})");
 
             let len = data.len();
-            assert!(
-                h <= 1 || stride as usize <= len,
-                "stride ({stride}) > data length ({len})"
-            );
-            assert!(h as usize <= len, "height ({h}) > data length ({len})");
-            if h > 0 {
-                let size = (h - 1) * stride + w;
+            // An empty view needs no data
+            if w > 0 && h > 0 {
                 assert!(
-                    size as usize <= len,
+                    h <= 1 || stride as usize <= len,
+                    "stride ({stride}) > data length ({len})"
+                );
+                let size = (h as usize - 1) * stride as usize + w as usize;
+                assert!(
+                    size <= len,
                     "required size ({size}) > data length ({len})"
                 );
             }
